@@ -474,6 +474,7 @@ fn main() {
                 for _ in 0..len {
                     let op = if generic { gen_generic(&mut r, &fb, &obs) } else { gen_wrapper(&mut r, &obs) };
                     let own = obs["admin"] == "self";
+                    time_passes(&sys.e, &mut r, 3000);
                     let ev = sys.step(&op);
                     feedback(&mut fb, &op, &ev, own);
                     obs = ev["obs"].clone();
